@@ -7,10 +7,20 @@ Open Scope N_scope.
 Definition enc_range (r : range) : range := (encode_bytes (fst r), if is_nil (snd r) then [] else encode_bytes (snd r)).
 Definition dec_key (b : bytes) : option bytes :=
   if is_nil b then Some [] else match decode_bytes b with Some (_, x) => Some x | None => None end.
+Fixpoint dec_keys (l : list bytes) : option (list bytes) :=
+  match l with
+  | [] => Some []
+  | k :: t => match dec_key k, dec_keys t with Some k', Some t' => Some (k' :: t') | _, _ => None end
+  end.
+Definition dec_bk (b : option (N * list bytes)) : option (option (N * list bytes)) :=
+  match b with
+  | None => Some None
+  | Some (v, ks) => match dec_keys ks with Some ks' => Some (Some (v, ks')) | None => None end
+  end.
 Definition dec_desc (d : desc) : option desc :=
-  match dec_key (d_start d), dec_key (d_end d) with
-  | Some s, Some e => Some (mkDesc (d_id d) s e (d_ver d) (d_conf d) (d_peers d) (d_leader d))
-  | _, _ => None
+  match dec_key (d_start d), dec_key (d_end d), dec_bk (d_bk d) with
+  | Some s, Some e, Some b => Some (mkDesc (d_id d) s e (d_ver d) (d_conf d) (d_peers d) (d_leader d) b)
+  | _, _, _ => None
   end.
 Fixpoint dec_descs (l : list desc) : option (list desc) :=
   match l with
@@ -104,12 +114,12 @@ Proof.
   intros H t k d' Hc. destruct (codec_pd_one raw t (ReqGet k) d' Hc) as [d [Hr Hd]]. cbn [enc_req] in Hr.
   destruct (H t k d Hr) as [B1 [B2 C]]. unfold dec_desc in Hd.
   destruct (dec_key (d_start d)) as [s|] eqn:Es; [|discriminate]. destruct (dec_key (d_end d)) as [e|] eqn:Ee; [|discriminate].
-  injection Hd as <-. cbn [d_start d_end]. rewrite <- (dec_contains _ _ k s e B1 B2 Es Ee). exact C.
+  destruct (dec_bk (d_bk d)) as [b|]; [|discriminate]. injection Hd as <-. cbn [d_start d_end]. rewrite <- (dec_contains _ _ k s e B1 B2 Es Ee). exact C.
 Qed.
 Lemma codec_prev_sound raw : raw_prev_sound raw -> pd_prev_sound (codec_pd raw).
 Proof.
   intros H t k d' Hk Hc. destruct (codec_pd_one raw t (ReqPrev k) d' Hc) as [d [Hr Hd]]. cbn [enc_req] in Hr.
   destruct (H t k d Hk Hr) as [B1 [B2 C]]. unfold dec_desc in Hd.
   destruct (dec_key (d_start d)) as [s|] eqn:Es; [|discriminate]. destruct (dec_key (d_end d)) as [e|] eqn:Ee; [|discriminate].
-  injection Hd as <-. cbn [d_start d_end]. rewrite <- (dec_contains_end _ _ k s e Hk B1 B2 Es Ee). exact C.
+  destruct (dec_bk (d_bk d)) as [b|]; [|discriminate]. injection Hd as <-. cbn [d_start d_end]. rewrite <- (dec_contains_end _ _ k s e Hk B1 B2 Es Ee). exact C.
 Qed.
